@@ -89,7 +89,7 @@ func (m *GoMethod) GetAttr(name string) (Object, bool) {
 				if !ok {
 					return TypeErrorf("type error: go_method.out_type expected integer (%s given)", args[0].Type())
 				}
-				if index.value < 0 || index.value >= int64(m.NumIn()) {
+				if index.value < 0 || index.value >= int64(m.NumOut()) {
 					return Errorf("value error: go_method.out_type index out of range [0, %d] (%d given)",
 						m.NumOut()-1, index.value)
 				}
@@ -110,6 +110,27 @@ func (m *GoMethod) RunOperation(opType op.BinaryOpType, right Object) Object {
 
 func (m *GoMethod) Name() string {
 	return m.method.Name
+}
+
+// argsDescription says how many arguments a script passes to the method: the
+// receiver and a context parameter are supplied by the proxy, and a variadic
+// parameter takes any number.
+func (m *GoMethod) argsDescription() string {
+	count := 0
+	for i := 1; i < m.method.Type.NumIn(); i++ {
+		if !m.method.Type.In(i).Implements(contextInterface) {
+			count++
+		}
+	}
+	atLeast := ""
+	if m.method.Type.IsVariadic() {
+		atLeast = "at least "
+		count--
+	}
+	if count == 1 {
+		return fmt.Sprintf("%s1 argument", atLeast)
+	}
+	return fmt.Sprintf("%s%d arguments", atLeast, count)
 }
 
 func (m *GoMethod) NumIn() int {
